@@ -13,7 +13,7 @@ CHECKS = {
          "oracle: own INSDC printer/parser/evaluator; hook genbank.VerifParseLocation (verif tag) as accelerator, a sample of every run goes through genbank.Parse; known finding K2 (a..b>) matched by signature only", "5 C02"),
  "C03": ("exploration", "round-trip monitor + independent column-based reader + byte-level determinism over repeated builds",
          "Records from the parser image and assembled structures are built 20 times (byte comparison, map-rich records), parsed back by poly and read by an independent column-based reader; earlier outputs are re-checked after later builds; a sample goes through Write/Read.",
-         "independent reader written from the GenBank release notes; semantic location equality; known finding K2 matched by signature only", "5 C03"),
+         "independent reader written from the GenBank release notes; semantic location equality; known findings K2 and K3 matched by signature only", "5 C03"),
  "C04": ("exploration", "reference-model monitor over enumerated and random executions",
          "Every seqhash.Hash call on the complete ACGT space to length 7 (quick) / 9 (thorough), IUPAC space to length 3/4, in all four flag combinations, in lower/mixed case and in RNA spelling, is compared with the digest of an independent canonical form; random inputs to 10^5 bases with explicit rotation / reverse-complement / case / RNA calls. Held on the executions observed; complete for the enumerated spaces.",
          "trusts the harness oracle (brute-force / two-pointer least rotation, own IUPAC complement) and lukechampine blake3 as digest primitive (self-checked against published vectors)", "5 C04"),
